@@ -137,6 +137,8 @@ def check_triggers(ctx: Ctx, only) -> None:
                 ctx.unrec(tf, tf.node, f"{q}: hooks are drawn from a generator helper", "selection and filtering happen inside a generator function, which the path evaluator does not inline")
                 continue
             tgt_ok = len(lps) == 1 and all(e.recv == lps[0].iter for e in ext)
+            if not want and not lps and not ext and not [e for e in calls(p) if e.name.startswith("hooked_")]:
+                tgt_ok = True  # neither bucket exists: the (empty) selection is walked zero times
             ctx.check(got == want and tgt_ok, tf, tf.node, f"{q}: targets = hooks[None] ++ hooks[time] (buckets present: all-times={none_in[0]}, timed={tpol})", " ++ ".join(want) or "[]", " ++ ".join(got) or "[]")
             for l in lps:
                 el = ("sym", f"{l.target[0]}∈{l.loopid}")
@@ -212,7 +214,9 @@ def check_call_sites(ctx: Ctx, aspects) -> None:
         # fills
         ex = [e for e in evs if e.kind == "call" and calls_target(e, EXEC)]
         for x in ex:
-            for l in [l for l in loops(b.path) if l.iter == x.term]:
+            walked = [l for l in loops(b.path) if l.iter == x.term]
+            ctx.check(len(walked) == 1, f, x.node, f"{b.phase} {b.kind}: the fills of a round are walked once, right after the round (hooks see a fill before the next order is accepted)", "for log in <result of this _execution()>: ...", f"{len(walked)} loop(s) over the round's result within the handling of that order")
+            for l in walked:
                 el = ("sym", f"{l.target[0]}∈{l.loopid}")
                 for bp in l.paths:
                     ts = [e for e in calls(bp) if e.name.startswith("_trigger_event_")]
@@ -438,3 +442,10 @@ def r5(ctx: Ctx) -> None:
                 if all(len([c for c in calls(bp) if c.fterm == fn and c.kwargs and c.kwargs[0] == ("**", kwv)]) == 1 and not bp.conds for bp in l.paths):
                     found = True
     ctx.check(found, st, st.node, "every pending setup is executed", "[func(**kwargs) for func, kwargs in self._pending_setups]", "present" if found else "not found")
+
+
+@rule("C13.H1", "mechanism shared with C10: the time a hook is selected by is the occurrence's own time (records carry the market clock of the moment)", "T10 field provenance (same rule as C10.R3)", floor=10)
+def h1(ctx: Ctx) -> None:
+    from .c10 import r3 as record_fields_rule
+
+    record_fields_rule(ctx)
